@@ -21,6 +21,7 @@ TProbe ==
                        "observed_behaviour_differs_from_model")
               \cup Flg(R.r.end # "ok", "drop_of_instance_panicked")
               \cup Flg(R.r.leaked # << >>, "registration_leaked_after_drop")
+              \cup Flg(R.r.fds_left # 0, "descriptor_leaked_after_drop")
               \cup Flg(R.r.wit_unreg # 1, "foreign_registration_removed")
 
 TraceSpec == TInit /\ [][TProbe]_tvars
